@@ -894,6 +894,8 @@ class FnTranslator:
                 pre = []
                 a = self.args_for(info, e[4], env, pre)
                 for x in info.exts: self.add_ext(*x, ops=getattr(info, 'ext_opaques', ()))
+                for o in info.needs_deq:          # (b04, round 9) the callee's [DecidableEq T] needs are the caller's too
+                    if o not in self.needs_deq: self.needs_deq.append(o)
                 self.callees.append(info.lean_name)
                 return self.wrap(pre, MCall(" ".join([info.lean_name] + [n for n, _ in info.exts] + ["self"] + a)))
         if e[0] in ("call", "mcall"):
@@ -3096,6 +3098,8 @@ class FnTranslator:
                     v = self.fresh("r")
                     call = " ".join([info.lean_name] + [n for n, _ in info.exts] + ["self"] + a)
                     for x in info.exts: self.add_ext(*x, ops=getattr(info, 'ext_opaques', ()))
+                    for o in info.needs_deq:      # (b04, round 9) as in call_translated / invoke
+                        if o not in self.needs_deq: self.needs_deq.append(o)
                     self.callees.append(info.lean_name)
                     if not self.is_result: raise RsError("Result method called outside a Result function")
                     if not wr:
